@@ -208,7 +208,7 @@ def run_impl(cols, ops, ctx, case):
             elif o[0] == "copy":
                 c = t.copy(); regs.append(c); group[len(regs) - 1] = group[o[1]]
                 out = dump(c)
-                if out != before: ctx.fail(["copy"], "copy differs from the original", case)
+                if out != before: ctx.fail(["where", "copy-shares-data"] if "alias" in tags else ["copy"], "copy differs from the original", case)
         except Exception as e:
             out = ["EXC", errname(e)]
             sig = ["raises", errname(e), o[0]]
